@@ -69,7 +69,7 @@ MIN = {
     'legacy_feat:single-char-cycle': 300, 'gap_checks': 1000,
     'parse_cli_checks': 5000,
 }
-NCASES = {'quick': 480, 'thorough': 16000}
+NCASES = {'quick': 480, 'thorough': 8000}
 IDS_PER_CASE = 120
 LEGACY_PER_CASE = 40
 
